@@ -2817,6 +2817,13 @@ func (db *DB) Import(ctx context.Context, r io.Reader) error {
 	}
 	defer guard.Unlock()
 
+	// Build the LTX file first. This reads & validates the whole image so that
+	// an import that cannot be applied fails before any local state is discarded.
+	pos, err := db.importToLTX(ctx, r)
+	if err != nil {
+		return err
+	}
+
 	// Invalidate journal, if one exists.
 	if err := db.invalidateJournal(JournalModePersist); err != nil {
 		return fmt.Errorf("invalidate journal: %w", err)
@@ -2827,11 +2834,6 @@ func (db *DB) Import(ctx context.Context, r io.Reader) error {
 		if err := db.TruncateWAL(ctx, 0); err != nil {
 			return fmt.Errorf("truncate wal: %w", err)
 		}
-	}
-
-	pos, err := db.importToLTX(ctx, r)
-	if err != nil {
-		return err
 	}
 
 	return db.ApplyLTXNoLock(db.LTXPath(pos.TXID, pos.TXID), true)
